@@ -35,6 +35,7 @@ const c05SchemaTmpl = `{"name":"IDX","version":"1.0.0","tables":{"T":{"columns":
  "a":{"type":"string"},
  "b":{"type":"string"},
  "c":{"type":{"key":{"type":"string"},"min":0,"max":1}},
+ "d":{"type":{"key":{"type":"string"},"min":0,"max":1}},
  "m":{"type":{"key":{"type":"string"},"value":{"type":"string"},"min":0,"max":"unlimited"}},
  "n":{"type":"integer"}},
  "indexes":%s}}}`
@@ -68,12 +69,16 @@ var c05Cfgs = []c05Cfg{
 	{"schema[b,c]+client[a]", `[["b","c"]]`, []model.ClientIndex{ck("a")}},
 	{"schema[a]+client[n],[m|k1]", `[["a"]]`, []model.ClientIndex{ck("n"), ck([2]string{"m", "k1"})}},
 	{"schema[n]+client[c,n]", `[["n"]]`, []model.ClientIndex{ck("c", "n")}},
+	// indexes with two positions that can be empty: two optional columns, two keys of one map, an optional column and a map key
+	{"schema[c,d]", `[["c","d"]]`, nil},
+	{"client[m|k1,m|k2],[c,m|k1]", `[]`, []model.ClientIndex{ck([2]string{"m", "k1"}, [2]string{"m", "k2"}), ck("c", [2]string{"m", "k1"})}},
 }
 
 // row valuation
 type c05Val struct {
 	A, B string
 	C    *string
+	D    *string
 	M    map[string]string
 	N    int
 }
@@ -82,12 +87,13 @@ func sp(s string) *string { return &s }
 
 var c05Universe = []c05Val{
 	// values 1 and 3 differ in (b,c) but agree once the two strings are put end to end ("p"+"qs" = "pq"+"s"): a multi-column key must keep them apart
-	{"x", "p", nil, nil, 0},
-	{"y", "p", sp("qs"), map[string]string{"k1": "u"}, 1},
-	{"z", "pq", sp("qs"), map[string]string{"k1": "u", "k2": "w"}, 1},
-	{"x", "pq", sp("s"), map[string]string{"k1": "w"}, 2},
-	{"y", "r", sp("s"), map[string]string{"k2": "u"}, 0},
-	{"w", "p", nil, nil, 2},
+	// values 0 and 1 hold the same string in complementary optional columns (c, d), values 1 and 3 the same string under complementary map keys
+	{"x", "p", nil, sp("qs"), nil, 0},
+	{"y", "p", sp("qs"), nil, map[string]string{"k1": "u"}, 1},
+	{"z", "pq", sp("qs"), sp("t"), map[string]string{"k1": "u", "k2": "w"}, 1},
+	{"x", "pq", sp("s"), nil, map[string]string{"k2": "u"}, 2},
+	{"y", "r", sp("s"), sp("qs"), map[string]string{"k1": "w"}, 0},
+	{"w", "p", nil, nil, nil, 2},
 }
 
 var c05UUIDs = []string{
@@ -158,6 +164,9 @@ func (e *c05Env) mk(uuid string, v c05Val) model.Model {
 	if v.C != nil {
 		schemas.Set(m, "c", sp(*v.C))
 	}
+	if v.D != nil {
+		schemas.Set(m, "d", sp(*v.D))
+	}
 	if v.M != nil {
 		mm := map[string]string{}
 		for k, x := range v.M {
@@ -184,6 +193,12 @@ func c05Key(ix c05Index, v c05Val) string {
 				s = "c=<nil>"
 			} else {
 				s = "c=" + *v.C
+			}
+		case "d":
+			if v.D == nil {
+				s = "d=<nil>"
+			} else {
+				s = "d=" + *v.D
 			}
 		case "n":
 			s = fmt.Sprintf("n=%d", v.N)
@@ -396,6 +411,11 @@ func (e *c05Env) fullRow(v int) *ovsdb.Row {
 	} else {
 		row["c"] = ovsdb.OvsSet{GoSet: []interface{}{*u.C}}
 	}
+	if u.D == nil {
+		row["d"] = ovsdb.OvsSet{GoSet: []interface{}{}}
+	} else {
+		row["d"] = ovsdb.OvsSet{GoSet: []interface{}{*u.D}}
+	}
 	mm := map[interface{}]interface{}{}
 	for k, x := range u.M {
 		mm[k] = x
@@ -422,6 +442,13 @@ func (e *c05Env) modify(o, n int) *ovsdb.Row {
 			row["c"] = ovsdb.OvsSet{GoSet: []interface{}{}}
 		} else {
 			row["c"] = ovsdb.OvsSet{GoSet: []interface{}{*b.C}}
+		}
+	}
+	if (a.D == nil) != (b.D == nil) || (a.D != nil && *a.D != *b.D) {
+		if b.D == nil {
+			row["d"] = ovsdb.OvsSet{GoSet: []interface{}{}}
+		} else {
+			row["d"] = ovsdb.OvsSet{GoSet: []interface{}{*b.D}}
 		}
 	}
 	mm := map[interface{}]interface{}{}
@@ -634,6 +661,8 @@ func (e *c05Env) probe(ix c05Index, v c05Val) c05Probe {
 			p.val.B = v.B
 		case "c":
 			p.val.C = v.C
+		case "d":
+			p.val.D = v.D
 		case "n":
 			p.val.N = v.N
 		case "m":
@@ -716,7 +745,7 @@ func (e *c05Env) descState(s c05State) []string {
 	var out []string
 	for i, v := range s {
 		if v >= 0 {
-			out = append(out, fmt.Sprintf("%s:%s", c05UUIDs[i][34:], c05Key(c05Index{cols: []model.ColumnKey{{Column: "a"}, {Column: "b"}, {Column: "c"}, {Column: "n"}, {Column: "m", Key: "k1"}, {Column: "m", Key: "k2"}}}, c05Universe[v])))
+			out = append(out, fmt.Sprintf("%s:%s", c05UUIDs[i][34:], c05Key(c05Index{cols: []model.ColumnKey{{Column: "a"}, {Column: "b"}, {Column: "c"}, {Column: "d"}, {Column: "n"}, {Column: "m", Key: "k1"}, {Column: "m", Key: "k2"}}}, c05Universe[v])))
 		}
 	}
 	return out
